@@ -40,7 +40,8 @@ var c14Pool = []string{"a.co", "a.com.cn", "a.com", "b.com", "c.com", "d.com", "
 
 // c14NestPool (family 1): wildcard domains that are textual prefixes of one another below one parameter, so that
 // deletions re-join nodes along a chain, and a domain with non-ASCII letters.
-var c14NestPool = []string{"{sub}.a.com", "{sub}.a.com.cn", "{sub}.a.org", "{sub}.a.co", "\u00e9cole.com", "{sub}.\u00e9cole.com"}
+var c14NestPool = []string{"{sub}.a.com", "{sub}.a.com.cn", "{sub}.a.org", "{sub}.a.co", "\u00e9cole.com", "{sub}.\u00e9cole.com",
+	"{Sub:\\D+}.B.net"} // a name and a rule with capitals: only the text outside the braces is case-insensitive
 
 type c14Cfg struct {
 	Family int `json:"family"`
@@ -95,10 +96,31 @@ func (m *hostModel) ic() ref.Interceptors {
 	return ref.Interceptors{}
 }
 
+// lowerOutsideBraces: domains are case-insensitive, parameter names and rules ({Sub:\\D+}) are not.
+func lowerOutsideBraces(d string) string {
+	var b strings.Builder
+	for d != "" {
+		i := strings.IndexByte(d, '{')
+		if i < 0 {
+			b.WriteString(strings.ToLower(d))
+			break
+		}
+		b.WriteString(strings.ToLower(d[:i]))
+		j := strings.IndexByte(d[i:], '}')
+		if j < 0 {
+			b.WriteString(d[i:])
+			break
+		}
+		b.WriteString(d[i : i+j+1])
+		d = d[i+j+1:]
+	}
+	return b.String()
+}
+
 func (m *hostModel) enabled(o hostOp) bool {
 	switch o.K {
 	case "add":
-		d := strings.ToLower(o.D)
+		d := lowerOutsideBraces(o.D)
 		if m.live[d] != nil {
 			return false
 		}
@@ -126,14 +148,14 @@ func (m *hostModel) enabled(o hostOp) bool {
 func (m *hostModel) apply(o hostOp) {
 	switch o.K {
 	case "add":
-		d := strings.ToLower(o.D)
+		d := lowerOutsideBraces(o.D)
 		m.live[d] = ref.MustParse(d, m.ic())
 	case "multi":
 		for _, d := range o.Ds {
 			m.live[d] = ref.MustParse(d, m.ic())
 		}
 	case "del":
-		delete(m.live, strings.ToLower(o.D))
+		delete(m.live, lowerOutsideBraces(o.D))
 	case "icpt":
 		m.icpt = true
 	}
@@ -229,6 +251,7 @@ func c14HostsOf(family int) []string {
 		w = strings.ReplaceAll(w, `{sub:\d+}`, "7")
 		w = strings.ReplaceAll(w, "{sub:digit}", "8")
 		w = strings.ReplaceAll(w, "{sub}", "x1")
+		w = strings.ReplaceAll(w, "{Sub:\\D+}", "xy")
 		w = strings.ReplaceAll(w, "{-s}", "yy")
 		for _, f := range []string{w, strings.ToUpper(w), w + ":80", w + ":", w + ":8x", "[" + w + "]", "[" + w + "]:80", "[" + w + "]:",
 			"[" + w, w + "]", w + "]:80", "[" + w + ":80", // a bracket without its partner is part of the name
@@ -239,7 +262,7 @@ func c14HostsOf(family int) []string {
 			add(e)
 		}
 	}
-	for _, s := range []string{"", "*", "zz.com", "digit.b.com", "x.b.com", ".a.com", "7.a.com:80", "x1.a.com.", "com", ":80", ":"} {
+	for _, s := range []string{"", "*", "zz.com", "digit.b.com", "x.b.com", ".a.com", "7.a.com:80", "x1.a.com.", "com", ":80", ":", "12.b.net", "xy.b.net", "XY.B.NET"} {
 		add(s)
 	}
 	return out
